@@ -32,7 +32,8 @@ Definition stop_for (cls : tclass) (T : list Z) (c : Z) : Prop :=
   | KIdent => tab_cont c = false /\ c < 192 /\ c <> 92
   | KWs => c <> 32 /\ c <> 9 /\ c <> 11 /\ c <> 12 /\ c < 192
   | KLt => c <> 10 /\ c <> 13 /\ c <> 226
-  | KString | KComment | KTemplate => True      (* closed tokens: any follower *)
+  | KString | KTemplate => True                  (* closed tokens: any follower *)
+  | KComment => firstz 2 T = [47; 42] \/ c = 10 \/ c = 13   (* "/*...*/": any follower; "//...": LF or CR *)
   | KNum => tab_cont c = false /\ c <> 46        (* no identifier character (digit, letter, '_', '$'), no '.' *)
   end.
 
@@ -47,7 +48,7 @@ Definition is_num (cls : tclass) : bool := match cls with KNum => true | _ => fa
 (* restriction on the text within a class: only multi-line comments among the comment forms *)
 Definition text_ok (cls : tclass) (T : list Z) : Prop :=
   match cls with
-  | KComment => firstz 2 T = [47; 42]
+  | KComment => firstz 2 T = [47; 42] \/ firstz 2 T = [47; 47]
   | _ => True
   end.
 
@@ -166,9 +167,9 @@ Proof.
            exfalso; subst ty; injection Hcls as <-; cbn [text_ok] in Htxt;
            destruct T as [|t0 T']; [discriminate|]; cbn [app] in E; rewrite pkl_cons_0 in E;
            assert (t0 = a) by congruence; subst t0;
-           rewrite firstz_cons in Htxt by lia; assert (a = 47) by congruence; lia
+           rewrite firstz_cons in Htxt by lia; assert (a = 47) by (destruct Htxt; congruence); lia
        end);
-  (* multi-line comments *)
+  (* comments: "/*...*/" in front of anything, "//..." in front of LF / CR *)
   try (match goal with
        | E0 : comment (T ++ [0]) = Ok (?n, ?t, ?e, ?sl), Hty0 : ty = ?t |- _ =>
            assert (n = len T) by lia; subst n ty;
@@ -176,8 +177,13 @@ Proof.
            assert (Hne : t <> ErrorToken) by (intros ->; discriminate);
            assert (cls = KComment)
              by (destruct Hcty as [->|[->| ->]]; [congruence|injection Hcls as <-; reflexivity|injection Hcls as <-; reflexivity]);
-           subst cls; cbn [text_ok] in Htxt;
-           pose proof (comment_exchange T [0] R' _ _ _ _ H0R HR' E0 eq_refl Hne Htxt) as E0';
+           subst cls; cbn [text_ok stop_for] in Htxt, Hstop;
+           assert (E0' : comment (T ++ R') = Ok (len T, t, e, sl))
+             by (destruct Htxt as [Htxt|Htxt];
+                 [ apply (comment_exchange T [0] R' _ _ _ _ H0R HR' E0 eq_refl Hne Htxt)
+                 | destruct (hd_cons_nonempty R' HR') as (c & R'' & HRc & Hc); rewrite Hc in Hstop; subst R';
+                   destruct Hstop as [Hstop|Hstop]; [rewrite Htxt in Hstop; discriminate|];
+                   apply (comment_exchange_line T [0] c R'' _ _ _ _ H0R Hnt Hstop E0 eq_refl Htxt) ]);
            open_ext E R' Hsuf; rewrite E0'; cbn [rbind]; use_conds; destruct sl; fin_ext z T R' Hw Hst Hsuf HR'
        end);
   (* strings *)
@@ -500,16 +506,16 @@ Qed.
 
 End SeqNext.
 
-(* non-vacuity: a 'x'/*c*/`t`>>>= LF if(0x1F_fn;1.5e+3 with no class for non-ASCII runes *)
+(* non-vacuity: a 'x'/*c*/`t`>>>= LF if(0x1F_fn;1.5e+3//c CR LF with no class for non-ASCII runes *)
 Example ex_seq_ok : seq_ok nocls nocls nocls false
   [(IdentifierToken, [97]); (WhitespaceToken, [32]); (StringToken, [39; 120; 39]);
    (CommentToken, [47; 42; 99; 42; 47]); (TemplateToken, [96; 116; 96]);
    (GtGtGtEqToken, [62; 62; 62; 61]); (LineTerminatorToken, [10]); (2068, [105; 102]); (OpenParenToken, [40]);
    (HexadecimalToken, [48; 120; 49; 70; 95; 102; 110]); (SemicolonToken, [59]);
-   (DecimalToken, [49; 46; 53; 101; 43; 51])].
+   (DecimalToken, [49; 46; 53; 101; 43; 51]); (CommentToken, [47; 47; 99]); (LineTerminatorToken, [13; 10])].
 Proof.
   repeat (eapply sq_cons; [unfold relexes; vm_compute; eexists; split; [reflexivity|split; reflexivity]
                           | reflexivity | | reflexivity | | | ]); try apply sq_nil;
     cbn [text_ok stop_for follower texts map concat snd app hd is_num]; unfold op_stop;
-    repeat split; try lia; try reflexivity; try discriminate; try (intros; discriminate).
+    repeat split; try lia; try reflexivity; try discriminate; try (intros; discriminate); try (left; reflexivity); try (right; reflexivity); try (right; left; reflexivity).
 Qed.
